@@ -201,7 +201,7 @@ prop("C07", "fault_enumeration", "hostile reference device (fault catalogue x ta
      "Oracles: AddressSanitizer (quick gate) / Miri (queue + OwningQueue subset) / valgrind memcheck on the plain release binary (thorough) for invalid accesses; the instrumented Hal for double or never-issued unshare / dealloc; slice-length assertions; and a differential run (same seed with and without the device overwriting descriptor table + available ring after every driver store; with an in-place platform also the indirect tables) whose API results and platform-call log must be identical. "
      "Configuration values that size an allocation run in a memory-limited subprocess (an allocation-failure abort is not a clean panic).",
      "Sanitizer silence on the catalogue is not memory safety in general (ASan misses intra-object and far out-of-bounds accesses; Miri covers the model-transport subset only). A worker killed by a signal or a sanitizer report counts as a violation of this property; leaks under a hostile device are not violations. Two known findings are listed in known_findings.jsonl.",
-     "a case is (target, fault kind, position/variant): 15 used-ring faults x positions {0,1,2,5} x 8 raw-queue / 4 OwningQueue variants; 11 drivers x 14 driver-level faults x {model, MMIO modern, PCI} x ring-feature variants; 400 (thorough 4000 x scale) differential histories over N in {2,4,8} x direct/indirect x event_idx x bounce/in-place platform x table scribbling; 4000 (thorough 40000 x scale) multi-fault random histories on raw VirtQueue<1|2|4|16> and OwningQueue<2|4|8> in which the device draws a hostile action (arbitrary id / length / index jump, scribbling over descriptor table and available ring, rejected events) at every step; 1 memory-limited subprocess. "
+     "a case is (target, fault kind, position/variant): 15 used-ring faults x positions {0,1,2,5} x 8 raw-queue / 4 OwningQueue variants; 11 drivers x 14 driver-level faults x {model, MMIO modern, PCI} x ring-feature variants; 400 (thorough 4000 x scale) differential histories over N in {2,4,8} x direct/indirect x event_idx x bounce/in-place platform x table scribbling; 4000 (thorough 40000 x scale) multi-fault random histories on raw VirtQueue<1|2|4|16> and OwningQueue<2|4|8> in which the device draws a hostile action (arbitrary id / length / index jump, scribbling over descriptor table and available ring, rejected events) at every step; 20 (thorough 200 x scale) multi-fault histories per driver in which every request, spin round and stocked event draws a fault; 1 memory-limited subprocess. "
      "Non-trivial iff the fault was actually consumed by the driver (a driver load happened after it); distinct by the case name.",
      [stage("checked"), stage("asan", timeout=1800)], [stage("checked", scale=30000), stage("asan", scale=10000, timeout=3600), stage("miri", optional=True, timeout=3600), stage("valgrind", scale=2000, optional=True, shards=16, timeout=3600)],
      sanitizer_is_violation=True)
